@@ -558,6 +558,7 @@ def check(case, cc):
     cc.cls('channel-subset-unknown-name', bool(requested) and any(all(r not in p.get('raw_names', p['names']) for p in passes) for r in requested))
     cc.cls('>=2-log-passes', len(passes) >= 2)
     cc.cls('single-row-selected', any((len(expected_rows(sel, p['n'])) == 1) if sel[0] == 'slice' else (sel[1] == 1 or p['n'] == 1) for p in passes))
+    cc.cls('>=3-rows-selected', any((len(expected_rows(sel, p['n'])) >= 3) if sel[0] == 'slice' else (min(sel[1], p['n']) >= 3) for p in passes))
     cc.cls('multi-valued-channel', any(len(c[0]) > 1 for p in passes for c in p['cols']))
     cc.cls('reduction:' + reduction, any(len(c[0]) > 1 for p in passes for c in p['cols']) and fmt != 'BIT')
     cc.cls('format:' + case['float_format'][-1])
@@ -611,6 +612,10 @@ def check_outputs(case, cc, fmt, sel, passes, extra, requested, reduction, resul
         if fmt == 'LIS' and requested and sig in ('failed:exc:TypeError@TotalDepth/LIS/core/FrameSet.py:__init__',
                                                   'failed:exc:AttributeError@TotalDepth/LIS/core/FrameSet.py:__init__'):
             sig = SIG_LIS_CHANNELS      # the set of names reaches FrameSet, which wants a list of channel indexes
+        if fmt == 'LIS' and requested and 'None of the channels' in why and 'is in Log Pass' in why:
+            # residue of the repair of C11-lis-channels: an implied-X log pass that holds none of the requested channels
+            # is refused (no X axis can be loaded for it) instead of being written with its X column alone
+            sig = 'failed:lis-implied-x-pass-holds-none-of-the-requested-channels'
         dev(O_RESULT, sig, '%s: conversion failed: %s' % (desc, why))
         return
     # ---- which LAS files hold data, in order
